@@ -63,6 +63,18 @@ def histories(ctx):
             # kwargs and PathNode objects of different tasks must still denote ONE node per file, else the edge is lost
             spec["data_via_link"] = True
         hs.append({"tag": "rand", "spec": spec, "steps": steps})
+    # after-expressions are matched case-insensitively: spell some of them in upper / mixed case (the edge must not depend on it)
+    from impl import project as _pj
+    for h in hs:
+        for t in h["spec"]["tasks"]:
+            if t.get("after") and t.get("after_style") == "expr" and rng.random() < 0.5 and all(
+                    u["prods"] for u in h["spec"]["tasks"] if u["id"] in t["after"]):
+                names = [_pj.tname(a) for a in t["after"]]
+                t["after_expr"] = " or ".join(n.upper() if rng.random() < 0.6 else n.title() for n in names)
+    hs.append({"tag": "corpus-after-case", "spec": {"tasks": [
+        {"id": 0, "module": 0, "deps": [], "prods": [20], "after": [], "marks": ["try_last"], "beh": "ok", "style": "default"},
+        {"id": 1, "module": 0, "deps": [], "prods": [21], "after": [0], "after_style": "expr", "after_expr": "TASK_T00X", "marks": ["try_first"],
+         "beh": "ok", "style": "default"}], "versions": {"0": 0}, "inputs": {}}, "steps": [["build", {}]]})
     # corpus: producer declares the file as a plain Path default, the try_first consumer as a PathNode object, both through the link
     hs.append({"tag": "corpus-spelling", "spec": {"data_via_link": True, "tasks": [
         {"id": 0, "module": 0, "deps": [], "prods": [20], "after": [], "marks": [], "beh": "ok", "style": "default"},
@@ -87,9 +99,46 @@ def run(ctx):
         return bool(b) and sum(1 for e in b[0]["obs"]["log"] if e[0] == "S") >= 2 and len(engine.spec_task_edges(h["spec"])) >= 1
 
     engine.run_campaign(ctx, hs, oracle, nontrivial=nontrivial)
+    engine.run_campaign(ctx, memlink_histories(ctx), oracle, nontrivial=nontrivial, compare_model=False)
     provisional_stream(ctx)
     # the F1 witness must still be detected (self-test of the oracle) unless it has been repaired
     ctx.extra["f1_witness_detected"] = "F1" in {v["finding"] for v in ctx.violations}
+
+
+def memlink_histories(ctx):
+    """Values handed from task to task through shared in-memory PythonNode objects (`mem_out` / `mem_in`), with and without an
+    initial value on the node, consumer defined / prioritised before the producer; one or two builds. Implementation-only oracle
+    (order / once): M6 has no in-memory nodes."""
+    rng = ctx.rng
+    hs = []
+    for preset in (False, True):
+        for marks in ([], ["try_first"]):
+            hs.append({"tag": "memlink", "spec": {"mem_preset": preset, "tasks": [
+                {"id": 0, "module": 0, "deps": [], "prods": [20], "after": [], "marks": list(marks), "beh": "ok", "style": "default", "mem_in": [1]},
+                {"id": 1, "module": 0, "deps": [], "prods": [21], "after": [], "marks": [], "beh": "ok", "style": "default", "mem_out": True},
+                {"id": 2, "module": 0, "deps": [], "prods": [22], "after": [], "marks": list(marks), "beh": "ok", "style": "default", "mem_in": [0]}],
+                "versions": {"0": 0}, "inputs": {}}, "steps": [["build", {}], ["build", {"force": True}]]})
+    hs[0]["spec"]["tasks"][0]["mem_out"] = hs[1]["spec"]["tasks"][0]["mem_out"] = True
+    hs[2]["spec"]["tasks"][0]["mem_out"] = hs[3]["spec"]["tasks"][0]["mem_out"] = True
+    for _ in range(ctx.scale(16, 200)):
+        spec = engine.gen_spec(rng, nt=(3, 6), after_p=0.2, after_needs_prods=True, prodless_p=0.0, dens=0.3,
+                               styles=("default", "annotated", "kwargs"), marks=(("try_first", 0.3), ("try_last", 0.2)))
+        spec["mem_preset"] = rng.random() < 0.6
+        ids = [t["id"] for t in spec["tasks"]]
+        for t in spec["tasks"]:
+            cands = [i for i in ids if i != t["id"] and t["id"] not in engine.closure(engine.spec_task_edges(spec), i, forward=False) and i != t["id"]]
+            if cands and rng.random() < 0.5:
+                u = rng.choice(cands)
+                if t["id"] in engine.closure(engine.spec_task_edges(spec), u, forward=False) or u in engine.closure(engine.spec_task_edges(spec), t["id"], forward=True):
+                    continue
+                # t consumes the in-memory product of u (keep the graph acyclic: u must not depend on t)
+                if t["id"] in engine.closure(engine.spec_task_edges(spec), u, forward=False):
+                    continue
+                next(x for x in spec["tasks"] if x["id"] == u)["mem_out"] = True
+                t.setdefault("mem_in", []).append(u)
+        steps = [["build", {}]] + ([["build", {"force": True}]] if rng.random() < 0.5 else [])
+        hs.append({"tag": "memlink", "spec": spec, "steps": steps})
+    return hs
 
 
 PROV_KINDS = {"order", "after", "once", "generated", "build"}
